@@ -11,7 +11,7 @@ from . import propagation as P
 
 TIERS = {
     # seeds, configs per assembly, schedules per config, wall budget (s)
-    "quick": {"C01": (1500, 2, 4, 38), "C02": (1100, 2, 6, 35), "C04": (1400, 2, 4, 35)},
+    "quick": {"C01": (1500, 2, 4, 100), "C02": (1100, 2, 6, 100), "C04": (1400, 2, 4, 100)},
     "thorough": {"C01": (12000, 4, 12, 1500), "C02": (10000, 4, 24, 1500), "C04": (10000, 4, 12, 1500)},
 }
 
